@@ -261,6 +261,16 @@ theorem run_fill (n : Nat) : ∀ (k j : Nat), j + k ≤ n →
     simp only [e1, e2] at this ⊢
     simpa using this
 
+/-- C12 (suite c12s): with `max_conns` connections being serviced — whatever they are doing, e.g. each being sent an open
+    event stream — no unit is left and the accept loop has no step: neither `grant` nor `acceptOk` is enabled, so one more
+    client is not accepted until some connection ends (`connEnd` gives a unit back: `C12_conserved`). -/
+theorem C12_full_no_accept (n : Nat) :
+    ∃ s, run false (Srv.new n) (fill n) = some s ∧ s.serving = n ∧ s.tokens.units = 0 ∧
+      step false s .grant = none ∧ step false s .acceptOk = none ∧ step false s .acceptErr = none := by
+  have h := run_fill n n 0 (by omega)
+  have h0 : (Srv.new n) = { tokens := ⟨n, n - 0, 0⟩, serving := 0 } := by simp [Srv.new, Tokens.new]
+  refine ⟨_, by rw [h0]; exact h, by simp, by simp, ?_, ?_, ?_⟩ <;> simp [step]
+
 /-- C13: with any number `k ≤ max_conns` of connections being served — whatever they are doing: their handlers may occupy
     every thread of the handler pool — the revocation is observed by the accept loop in one step of its own: it stops
     (listener released, signal sent) while the `k` connections go on being served; none of their slots is touched. -/
